@@ -237,6 +237,27 @@ def run(ctx, prog, res):
                     if len(doms) == 1 and len(succs) > 1:
                         ctrl.append(flow.shape(fn, tt["op"], depth=6))
                 cur = fn.blocks[cur]["idom"]
+            # ... and the switches of the `match`/`if` region that ends in this block (or-patterns reach the arm
+            # through several edges: none of them dominates it alone)
+            top = fn.blocks[bb]["idom"]
+            if top is not None:
+                back = {bb}
+                work = [bb]
+                preds = {}
+                for i, _b in fn.live_blocks():
+                    for x in fn.succs(i):
+                        preds.setdefault(x, set()).add(i)
+                while work:
+                    x = work.pop()
+                    for pz in preds.get(x, ()):
+                        if pz not in back and fn.dominates(top, pz):
+                            back.add(pz)
+                            if pz != top:
+                                work.append(pz)
+                for x in back:
+                    tt = fn.blocks[x]["term"]
+                    if tt["k"] == "switch":
+                        ctrl.append(flow.shape(fn, tt["op"], depth=6))
             text = " ".join(ctrl)
             if "Date::has_year(" in text:
                 seen = hy_reads
